@@ -53,7 +53,10 @@ def _cases(tier):
                         else:
                             combos = list(itertools.product(DTS, (1, 2, 3), iters_all))
                         for dt, steps, it in combos:
-                            yield [name, L, qD, integ, [dt.real, dt.imag], steps, it]
+                            yield [name, L, qD, integ, [dt.real, dt.imag], steps, it, 'complex']
+                        # state tensors stored with a real dtype (the local Krylov start vector is then real)
+                        for dt, steps, it in ([(0.4j, 1, 3), (0.4j, 2, 2), (-0.3j, 1, 25)] if tier == 'quick' else combos):
+                            yield [name, L, qD, integ, [dt.real, dt.imag], steps, it, 'real']
 
 
 def energy(v, Hd):
@@ -67,11 +70,13 @@ def run_integrator(integ, H, psi, dt, steps, it):
 
 
 def run_case(case, ctx):
-    name, L, qD, integ, dtp, steps, it = case
+    name, L, qD, integ, dtp, steps, it = case[:7]
+    skind = case[7] if len(case) > 7 else 'complex'
     dt = complex(dtp[0], dtp[1])
     H = ec.build_hamiltonian(name, L, ctx.rng(5))
     qd = [int(x) for x in H.qd]
-    psi = ec.make_state(ctx.rng(0), qd, qD)
+    psi = ec.make_state(ctx.rng(0), qd, qD, skind)
+    ctx.cls('state_dtype:' + skind)
     v0 = dense.mps_to_vector(psi.A)
     n0 = float(np.linalg.norm(v0))
     if n0 < 1e-12:
@@ -170,4 +175,4 @@ def spaces(tier, seed):
                   bounds={'hamiltonians': ec.ALL_H, 'L': [1, 2, 3, 4], 'dense_dim<=': 256, 'profiles': PROFILES, 'dt': [str(x) for x in DTS],
                           'steps': [1, 2, 3], 'krylov_iterations': [1, 2, 3, 5, 25],
                           'combination': 'quick: one axis varied at a time around (0.4j,1,3); thorough: full product',
-                          'repeated_calls': 3})]
+                          'repeated_calls': 3, 'state_dtypes': ['complex', 'real']})]
